@@ -21,12 +21,13 @@ def main():
             {"harness": "c17a", "cfg": {"carriers": "2", "fails": "4", "dialends": "1", "closes": "2"}, "budget_s": 50, "label": "RedialPacketConn, 2 scripted carriers x 4 failure scripts each x close at {never,1s}: " + U},
         ]
         passes += [
+            {"harness": "c17a-backlog", "budget_s": 30, "label": "RedialPacketConn with a congested carrier: one packet in flight, then the user writes queueSize-1 / +0 / +1 / +50 more (send queue full, packets dropped), then the congested write fails while the read side stays blocked: redial, every carrier closed, no goroutine left"},
             {"harness": "c17b-seq", "cfg": {"depth": "5"}, "budget_s": 20, "label": "QueuePacketConn, all sequences of 5 operations over {QueueIncoming a/b, ReadFrom, WriteTo a/b, recv OutgoingQueue a/b, Close} with buffer scribbling, against a FIFO reference"},
             {"harness": "c17b-overflow", "budget_s": 10, "label": "QueuePacketConn, queueSize+5 packets each way: overflow dropped, order kept, nothing blocks"},
             {"harness": "c17b-conc", "budget_s": 30, "label": "QueuePacketConn, 2 feeders + reader + writer (+ closer): " + U},
             {"harness": "c17c-sweeper", "budget_s": 10, "label": "ClientMap with its real sweeper on virtual time: first seen at {0,T/4,T/2,T/2-1,3T/4} x refresh {none,T/2,T-1,T/2+1}: present with contents at idle T-1ns, discarded and closed by 1.5T"},
         ]
-        total = 140
+        total = 175
     else:
         passes = [
             {"harness": "c17a", "cfg": {"carriers": "1"}, "budget_s": 100, "label": "RedialPacketConn, 1 scripted carrier: " + U},
@@ -34,12 +35,13 @@ def main():
             {"harness": "c17a", "cfg": {"carriers": "3", "fails": "3", "dialends": "2", "closes": "2"}, "budget_s": 400, "label": "RedialPacketConn, 3 scripted carriers: " + U},
         ]
         passes += [
+            {"harness": "c17a-backlog", "budget_s": 200, "label": "RedialPacketConn with a congested carrier and a full send queue"},
             {"harness": "c17b-seq", "cfg": {"depth": "6"}, "budget_s": 120, "label": "QueuePacketConn, all sequences of 6 operations, against a FIFO reference"},
             {"harness": "c17b-overflow", "budget_s": 10, "label": "QueuePacketConn overflow"},
             {"harness": "c17b-conc", "budget_s": 60, "label": "QueuePacketConn, 2 feeders + reader + writer (+ closer): " + U},
             {"harness": "c17c-sweeper", "budget_s": 10, "label": "ClientMap with its real sweeper on virtual time"},
         ]
-        total = 1100
+        total = 1300
     summary, tot, samples, exh = sched.run_passes(rep, binary, passes, total)
     # (c) explicit-clock inner map: explicit-state search to a fixpoint (sequential, no scheduler)
     try:
